@@ -525,9 +525,23 @@ class TS:
         self.note(f, e, 'tree_map over a rotation carrier')
         return A
       return O
+    if name == 'brax.scan.tree' and len(e.args) >= 3:
+      # scan.tree(sys, f, in_types, *args): f(parent, *args) per depth.  Optimistic fixpoint: assume the
+      # carried parent value is what f returns for unit parents; join the root call (parent None is
+      # handled path-insensitively inside f) -- regrouping (take / concatenate) preserves unit-ness.
+      fv = self.ev(e.args[1], f, env)
+      rest = args[3:]
+      guess = None
+      for _ in range(3):
+        parent = guess if guess is not None else ('tuple', [U, O])
+        r = self.apply_abs(fv, [parent] + list(rest), {}, f, e) if isinstance(fv, tuple) and fv and fv[0] in ('fn', 'lam') else A
+        if r == guess:
+          break
+        guess = r
+      return guess if guess is not None else A
     if name in ('brax.scan.tree', 'brax.scan.link_types'):
-      # regrouping is opaque: results are not known unit (callers normalise afterwards)
-      return ('tuple', [A, O]) if name.endswith('tree') else ('tuple', [A, O])
+      # regrouping of per-type results is opaque: not known unit (callers normalise afterwards)
+      return ('tuple', [A, O])
     if name.startswith('brax.'):
       parts = name.split('.')
       if len(parts) >= 2 and parts[-2] == 'Transform' and parts[-1] in ('create', 'zero'):
